@@ -68,7 +68,20 @@ def run(ctx):
                 s[k:k + r] = [v + rng.choice([0, 0.01]) for v in q]
         penalty = rng.choice([0, 0.1, 0.5, 1.0])
         qa, sa_ = np.array(q, dtype=float), np.array(s, dtype=float)
-        wit = dict(query=q, series=s, penalty=penalty, ndim=nd)
+        # the same numeric content in non-contiguous views (C20: results must not depend on the layout)
+        layout = rng.choice(["contig", "contig", "strided", "column", "reversed"])
+        if layout == "strided":
+            big = np.repeat(sa_, 2, axis=0)
+            big[1::2] = 1e6
+            sa_ = big[::2]
+            bq = np.repeat(qa, 3, axis=0)
+            bq[1::3] = -1e6
+            qa = bq[::3]
+        elif layout == "column" and not nd:
+            sa_ = np.asfortranarray(np.array([s, [5e5] * c], dtype=float).T)[:, 0] if False else np.array([s, [5e5] * c], dtype=float).T[:, 0]
+        elif layout == "reversed":
+            sa_ = np.array(list(reversed(s)), dtype=float)[::-1]
+        wit = dict(query=q, series=s, penalty=penalty, ndim=nd, layout=layout)
         ref = brute_matching(q, s, penalty, nd)
         got = {}
         for use_c in (False, True):
